@@ -783,3 +783,109 @@ Print Assumptions c10_own_parser_invalid_name.
 Print Assumptions c10_invalid_name_hypotheses_satisfiable.
 Print Assumptions c10_query_pairs_are_valid_utf8.
 Print Assumptions c10_parsed_name_is_valid_utf8.
+
+(* ================================================================== X14: the typed parsers, concretely *)
+
+(** In [c10_own_parser_roundtrip] the url crate and `HostPort::from_str` enter through [url_norm] and [hp_norm] and two
+    hypotheses (each returns the link's own values unchanged); X10 made the first concrete up to an arbitrary [ext], X12
+    removed [lossy]. Model/UrlConcrete.v closes the rest: [c_url_norm] = X10's model inside its fragment (refusal outside),
+    [c_hp_norm] = C17's [hp_parse] / [hp_display] over X9's model of `Host::parse` (refusal outside its fragment), and
+    [c_own_parse] = [own_parse Utf8.lossy c_url_norm c_hp_norm]: MagnetLink::parse with NO `Section` variable left.
+    [c_hp_fixed p] ("p is a printed host:port value") is decidable and characterised below. The correspondence run compares
+    [c_own_parse] with the `magnet_parse` hook on every text of the run whose `tr` / `x.pe` values lie inside the fragments
+    ([magnet_in_fragment], decided by the model), and [c_url_norm] / [c_hp_norm] with the `trackers` / `hpparse` hooks. *)
+From Imdl Require Import Model.UrlConcrete Proofs.UrlConcreteProofs Proofs.UrlConcreteUses.
+
+(** the two library hypotheses, proved of the instances: fixed points are exactly the normal forms / the printed values;
+    whatever is returned is a fixed point; everything returned is ASCII *)
+Theorem c10_concrete_typed_parsers :
+  (forall u, c_url_norm u = Some u <-> is_normal_url u = true) /\
+  (forall t u, c_url_norm t = Some u -> c_url_norm u = Some u /\ is_normal_url u = true) /\
+  (forall p, c_hp_fixed p = true <->
+     exists h n, (exists t, u_hparse t = Some (Some h)) /\ n <= 65535 /\ p = hp_display u_std4 u_url6 (h, n)) /\
+  (forall h n, (exists t, u_hparse t = Some (Some h)) -> n <= 65535 ->
+     c_hp_norm (hp_display u_std4 u_url6 (h, n)) = Some (hp_display u_std4 u_url6 (h, n))) /\
+  (forall p q, c_hp_norm p = Some q -> c_hp_norm q = Some q /\ forallb (fun b => b <? 128) q = true) /\
+  (forall ext s hp, c_hp_parse s = HpOk hp -> hp_parse u_ascii_nd (u_hparse_with ext) s = HpOk hp).
+Proof.
+  split; [exact c_url_norm_fixed_iff|].
+  split; [exact (fun t u H => conj (c_url_norm_idempotent t u H) (c_url_norm_normal t u H))|].
+  split; [exact c_hp_fixed_iff|]. split; [exact c_hp_norm_display|].
+  split; [exact (fun p q H => conj (c_hp_norm_idempotent p q H) (c_hp_norm_ascii p q H))|exact c_hp_parse_transfer].
+Qed.
+
+(** second clause of C10 with nothing assumed of any library: for links whose trackers are normal URLs and whose peers are
+    printed host:port values, parse (print l) recovers exactly the fields ([wf_link]: the fields are byte strings;
+    [opt_valid]: the name is valid UTF-8, as every Rust String is) *)
+Check c_own_parse_print : forall l,
+  wf_link l -> length (l_ih l) = 20%nat -> opt_valid (l_name l) = true ->
+  forallb is_normal_url (l_trackers l) = true -> forallb c_hp_fixed (l_peers l) = true ->
+  c_own_parse (print l) = Parsed (l_ih l) (l_name l) (l_trackers l) (l_peers l).
+Theorem c10_own_parser_roundtrip_concrete : forall l,
+  wf_link l -> length (l_ih l) = 20%nat -> opt_valid (l_name l) = true ->
+  forallb is_normal_url (l_trackers l) = true -> forallb c_hp_fixed (l_peers l) = true ->
+  c_own_parse (print l) = Parsed (l_ih l) (l_name l) (l_trackers l) (l_peers l).
+Proof. exact c_own_parse_print. Qed.
+
+(** ... for any name: the parser reports [Utf8.lossy] of it *)
+Theorem c10_own_parser_any_name_concrete : forall l,
+  wf_link l -> length (l_ih l) = 20%nat ->
+  forallb is_normal_url (l_trackers l) = true -> forallb c_hp_fixed (l_peers l) = true ->
+  c_own_parse (print l) = Parsed (l_ih l) (option_map Utf8.lossy (l_name l)) (l_trackers l) (l_peers l).
+Proof. exact c_own_parse_print_any_name. Qed.
+
+(** whatever text the concrete parser accepts, the trackers it reports are normal URLs and the peers printed host:port
+    values - so a link built from a parsed one satisfies the premises above, and prints / parses back to itself *)
+Theorem c10_concrete_parser_returns_normal_forms : forall text ih name trs prs,
+  c_own_parse text = Parsed ih name trs prs -> forallb is_normal_url trs = true /\ forallb c_hp_fixed prs = true.
+Proof. exact c_own_parse_normal. Qed.
+
+(** `torrent link` with the url crate concrete: the side condition of c10_link_command_decodes is proved, and every tr
+    value is a normal URL *)
+Theorem c10_link_command_decodes_concrete : forall plus ih name announce tiers peers select_only uri,
+  wfb ih -> wfb name -> Forall wfb peers ->
+  c_link_cmd ih name announce tiers peers select_only = Some uri ->
+  exists q trs,
+    map_opt c_url_norm (tracker_texts announce tiers) = Some trs /\ forallb is_normal_url trs = true /\
+    uri_query uri = Some q /\
+    std_parse plus q =
+      (k_xt, k_urn_btih ++ hex_lower ih) :: (k_dn, name)
+      :: map (fun t => (k_tr, t)) trs ++ map (fun p => (k_pe, p)) peers
+      ++ match index_set select_only with [] => [] | _ :: _ => [(k_so, so_value (index_set select_only))] end.
+Proof. exact c_link_cmd_decodes. Qed.
+
+(** the premises are satisfiable by non-trivial values: a tracker URL with port, path, query and fragment, a UDP tracker on
+    an IPv6 literal, an IPv6 peer and a domain peer, a non-ASCII name; the parser also normalises what is not in normal
+    form, refuses what the typed parsers refuse, and says where it is outside the fragments *)
+Definition witness_link_concrete : link :=
+  Link (repeat 171 20) (Some ([195; 169; 32; 38; 61] ++ [230; 151; 165]))
+       [B "http://t.example:8080/announce?x=1&y=%20+z#f"; B "udp://[2001:db8::1]:6969/a"] [B "[::1]:80"; B "d.example:6881"; B "10.0.0.1:0"]
+       (index_set [3; 1; 3]).
+
+Example c10_concrete_hypotheses_satisfiable :
+  wf_link witness_link_concrete /\ length (l_ih witness_link_concrete) = 20%nat /\ opt_valid (l_name witness_link_concrete) = true /\
+  forallb is_normal_url (l_trackers witness_link_concrete) = true /\ forallb c_hp_fixed (l_peers witness_link_concrete) = true /\
+  c_own_parse (print witness_link_concrete) =
+    Parsed (l_ih witness_link_concrete) (l_name witness_link_concrete) (l_trackers witness_link_concrete) (l_peers witness_link_concrete) /\
+  c_own_parse (B "magnet:?xt=urn:btih:abababababababababababababababababababab&tr=HTTP://T.Example:80/a/../b&x.pe=[0:0::1]:080&x.pe=LOCALHOST:1") =
+    Parsed (repeat 171 20) None [B "http://t.example/b"] [B "[::1]:80"; B "localhost:1"] /\
+  c_own_parse (B "magnet:?xt=urn:btih:abababababababababababababababababababab&tr=http://h:65536/") = Rejected ETracker /\
+  c_own_parse (B "magnet:?xt=urn:btih:abababababababababababababababababababab&x.pe=a%20b:1") = Rejected EPeer /\
+  c_own_parse (B "magnet:?xt=urn:btih:abababababababababababababababababababab&x.pe=[::1]:65536") = Rejected EPeer /\
+  magnet_in_fragment (B "magnet:?xt=urn:btih:abababababababababababababababababababab&tr=http://h:65536/&x.pe=a%20b:1") = true /\
+  magnet_in_fragment (B "magnet:?xt=urn:btih:abababababababababababababababababababab&tr=mailto:x") = false /\
+  magnet_in_fragment (B "magnet:?xt=urn:btih:abababababababababababababababababababab&x.pe=xn--bcher-kva.example:1") = false.
+Proof.
+  split.
+  { unfold wf_link, wfb. cbn [witness_link_concrete l_ih l_name l_trackers l_peers].
+    repeat split; [| intros n E; inversion E; subst | |];
+      repeat (apply Forall_cons || apply Forall_nil); vm_compute; reflexivity. }
+  split; [reflexivity|]. repeat split; vm_compute; reflexivity.
+Qed.
+
+Print Assumptions c10_concrete_typed_parsers.
+Print Assumptions c10_own_parser_roundtrip_concrete.
+Print Assumptions c10_own_parser_any_name_concrete.
+Print Assumptions c10_concrete_parser_returns_normal_forms.
+Print Assumptions c10_link_command_decodes_concrete.
+Print Assumptions c10_concrete_hypotheses_satisfiable.
